@@ -37,6 +37,7 @@ fn small_tx(rng: &mut Rng, coinbase_h: Option<u64>, segwit: bool) -> TxDesc {
             script: Bytes(crate::ser::p2pkh(&rng.bytes(20))),
         }],
         locktime: 0,
+        cs_width: 0,
     }
 }
 
@@ -55,6 +56,10 @@ fn small_block(h: u64, n_tx: usize, rng: &mut Rng, segwit: bool) -> BlockDesc {
         auxpow: None,
         txs,
     }
+}
+
+fn st_probe_long(h: &mut Harness) {
+    h.stats.probe("narrow_range_of_long_chain");
 }
 
 fn foreign(rng: &mut Rng, h: u64) -> ExtraBlock {
@@ -90,7 +95,7 @@ impl Prop for C09 {
         }
     }
     fn required_probes(&self, _tier: Tier) -> Vec<&'static str> {
-        vec!["flip_prev", "flip_merkle", "flip_tx", "swap_other_height", "swap_foreign", "bad_genesis", "consistent_from_genesis", "consistent_start_gt_0", "odd_level_tree", "flip_at_first_processed_height"]
+        vec!["flip_prev", "flip_merkle", "flip_tx", "swap_other_height", "swap_foreign", "bad_genesis", "consistent_from_genesis", "consistent_start_gt_0", "odd_level_tree", "flip_at_first_processed_height", "flip_in_auxpow_block", "narrow_range_of_long_chain"]
     }
     fn explore(&self, item: u64, rng: &mut Rng, tier: Tier, h: &mut Harness) -> Result<(), String> {
         let n_cons = if tier == Tier::Quick { 200 } else { 4000 };
@@ -99,7 +104,8 @@ impl Prop for C09 {
             let coin = COINS[(item % 8) as usize];
             let mut scn = new_scenario("C09", "consistent", coin);
             let g = genesis_block(coin);
-            let nb = rng.usize(2, 7);
+            let long = rng.chance(1, 8);
+            let nb = if long { rng.usize(80, 260) } else { rng.usize(2, 7) };
             for i in 0..nb {
                 if i == 0 {
                     if let Some(g) = &g {
@@ -107,7 +113,13 @@ impl Prop for C09 {
                         continue;
                     }
                 }
-                let n_tx = if rng.chance(1, 2) { *rng.pick(&TX_COUNTS) } else { rng.usize(1, 9) };
+                let n_tx = if long {
+                    rng.usize(1, 2)
+                } else if rng.chance(1, 2) {
+                    *rng.pick(&TX_COUNTS)
+                } else {
+                    rng.usize(1, 9)
+                };
                 let n_tx = if n_tx == 256 && rng.coin() { 257 } else { n_tx };
                 let sw = rng.coin();
                 scn.chain.push(small_block(i as u64, n_tx, rng, sw));
@@ -120,12 +132,16 @@ impl Prop for C09 {
             r.threads = pick_threads(rng);
             r.plan = benign_plan(rng);
             let t = nb as u64 - 1;
-            if g.is_none() || rng.chance(1, 2) {
+            if g.is_none() || rng.chance(1, 2) || long {
                 r.start = Some(rng.range(1, t));
             }
-            if rng.chance(1, 4) {
+            if rng.chance(1, 4) || long {
                 let s = r.start.unwrap_or(0);
-                r.end = Some(rng.range(s + 1, t + 2));
+                // long chains: a narrow window (a few blocks of hundreds)
+                r.end = Some(if long { s + rng.range(1, 6) } else { rng.range(s + 1, t + 2) });
+            }
+            if long {
+                st_probe_long(h);
             }
             scn.runs = vec![r];
             h.check(&mut scn)?;
@@ -150,7 +166,27 @@ impl Prop for C09 {
             }
             let n_tx = rng.usize(1, 3);
             let sw = rng.chance(1, 3);
-            world.chain.push(small_block(i as u64, n_tx, rng, sw));
+            let mut b = small_block(i as u64, n_tx, rng, sw);
+            // on AuxPoW coins every other world carries merged-mined blocks: verification must still bite
+            if let Some(thr) = coin_params(coin).auxpow_version {
+                if (w / 8) % 2 == 0 || i % 2 == 1 {
+                    b.version = thr + (rng.below(3) as u32);
+                    let sh = TxShape {
+                        max_in: 1,
+                        max_out: 2,
+                        boundary: false,
+                        big: false,
+                        segwit_ok: true,
+                        random_scripts: false,
+                        edge_values: false,
+                    };
+                    let mut a = random_auxpow(coin, rng, &sh);
+                    a.coinbase_branch.hashes.truncate(2);
+                    a.chain_branch.hashes.truncate(2);
+                    b.auxpow = Some(a);
+                }
+            }
+            world.chain.push(b);
         }
         world.extras = vec![foreign(rng, 1), foreign(rng, 2)];
         let mut lay = single_file_layout(nb);
@@ -282,6 +318,9 @@ impl Prop for C09 {
                     }
                     if *height == s {
                         st.probe("flip_at_first_processed_height");
+                    }
+                    if scn.chain.get(*height as usize).map(|b| b.auxpow.is_some()).unwrap_or(false) {
+                        st.probe("flip_in_auxpow_block");
                     }
                     *height
                 }
